@@ -209,6 +209,9 @@ class ExprMixin(EngineCore):
                 if isinstance(vals, Raise):
                     out.append((s, vals))
                     continue
+                if any(self.has_custom_truth(v) for v in vals):
+                    # an operand is an object that defines __bool__/__len__: its truth value needs a call
+                    return self.boolop_fork(e, st, ctx)
                 ts = [ops.truth(s, v) for v in vals]
                 all_bool = all(smt.is_bool(ops.lift(v)) if not isinstance(v, bool) else True for v in vals)
                 if not all_bool and not ctx.specials.get("$truth_ctx"):
@@ -231,6 +234,14 @@ class ExprMixin(EngineCore):
                     out.append((s, z3.And(*ts) if is_and else z3.Or(*ts)))
             return out
         return self.boolop_fork(e, st, ctx)
+
+    def has_custom_truth(self, v) -> bool:
+        if isinstance(v, Opt):
+            v = v.val
+        if isinstance(v, Ref) and META[v.oid].kind == "object" and isinstance(META[v.oid].cls, ClassVal):
+            ci = META[v.oid].cls.ci
+            return any(self.P.find_method(ci, nm) is not None for nm in ("__bool__", "__len__"))
+        return False
 
     def boolop_fork(self, e, st, ctx):
         is_and = isinstance(e.op, ast.And)
